@@ -29,19 +29,50 @@ class Client(HistoryPart):
         return tr.refused_calls > 0
 
 
+class _Pending(HistoryPart):
+    """The same histories with generated (partial) drain steps; the outgoing stream is observed on clones before and
+    after every step, so refused calls are checked while bytes are pending / partially drained."""
+
+    pending = True
+    clauses = CLAUSES | {"state"}
+    examples = {"quick": 250, "thorough": 8000}
+
+    def strategy(self, tier: str) -> t.Any:
+        from .. import gens
+
+        n = self.steps[tier]
+        if self.side == "client":
+            return gens.memo(f"hist.client.drains.{n}", lambda: history.client_steps(n, drains=True))
+        return gens.memo(f"hist.server.drains.{n}", lambda: history.server_steps(n, drains=True))
+
+    def nontrivial(self, tr: history.Trace) -> bool:
+        return any(e.startswith("call-with-bytes-pending:refused") for e in tr.events)
+
+
+class ServerPending(_Pending):
+    name = "server-pending"
+    side = "server"
+
+
+class ClientPending(_Pending):
+    name = "client-pending"
+    side = "client"
+
+
 PROP = Property(
     id="C10",
     rule=(
         "Generated: server- and client-centred histories as in C08 (every response kind x id class {open, open search, "
         "open non-search, completed, never received, 0} x state x result code). The outgoing stream is drained after "
-        "every step so bytes are attributed to calls. Oracle (reference model in lock step): a call that raises must "
+        "every step so bytes are attributed to calls; two further parts keep bytes pending (generated partial drains) and "
+        "observe the stream on clones before and after every step. Oracle (reference model in lock step): a call that raises must "
         "raise LDAPError, leave the drain empty, the state unchanged (NEW->OPEN tolerated) and the set of operations in "
         "progress unchanged (clone probes); a call the model refuses must not succeed (response to a retired or unknown "
         "request, second final response) and a call it accepts must not be refused; bytes emitted by an accepted call "
         "frame into exactly one PDU that reference-decodes to the message asked for. Non-trivial = history with >=1 "
         "refused call; distinct by step list."
     ),
-    parts=[Server(), Client()],
+    parts=[Server(), Client(), ServerPending(), ClientPending()],
     assumptions=["as C08"],
     technique="model-based (stateful) property testing with per-call byte attribution and clone probes",
 )
